@@ -125,3 +125,31 @@ func init() {
 		r.OkTrivial("debug", "x", 0)
 	})
 }
+
+func init() {
+	register("DEBUGCONV", func(r *Run) {
+		for _, pk := range []string{"p9p", "ufs", "ramfs"} {
+			for _, fn := range r.P.FuncsOfPkg(pk) {
+				eachInstr(fn, func(in ssa.Instruction) {
+					cv, ok := in.(*ssa.Convert)
+					if !ok {
+						return
+					}
+					fb, fs, ok1 := intBits(cv.X.Type())
+					tb, ts, ok2 := intBits(cv.Type())
+					if !ok1 || !ok2 {
+						return
+					}
+					if _, isC := cv.X.(*ssa.Const); isC {
+						return
+					}
+					narrowing := tb < fb || (tb == fb && fs != ts)
+					if narrowing {
+						fmt.Fprintf(os.Stderr, "%s | %s | %s -> %s | %s\n", r.P.Pos(in.Pos()), fnName(fn), shortType(cv.X.Type()), shortType(cv.Type()), valStr(cv.X))
+					}
+				})
+			}
+		}
+		r.OkTrivial("debug", "x", 0)
+	})
+}
